@@ -2,6 +2,7 @@ package historyprunner
 
 import (
 	"encoding/binary"
+	"errors"
 	"fmt"
 
 	"github.com/NethermindEth/juno/core"
@@ -107,6 +108,12 @@ func copyValue(
 		copy(buf, data)
 		return nil
 	})
+	if errors.Is(err, db.ErrKeyNotFound) {
+		// Nothing to copy: the state backend records no history entry for a diff entry that
+		// does not change the value, and a re-run after an interruption in the restore phase
+		// finds the live entry already moved to (and still present in) the scratch space.
+		return nil
+	}
 	if err != nil {
 		return err
 	}
